@@ -148,16 +148,23 @@ OPS = ["set-member", "set-plain", "parse", "from_dict", "copy", "deepcopy", "pic
 
 
 def h_history(env):
-    """operation sequences from a fresh message; the abstract model tracks the member set last"""
+    """operation sequences from a fresh message; the abstract model tracks the member set last.  Every object that was ever
+    copied from stays alive and is observed after every later step (a copy must not share selection state with its source)."""
     cat = catalogue.get(["s2", "oneofs"])
     mod = shapes.build_bp(cat)
     m = mod.M()
     model = {g: ("", None) for g in cat.shapes["M"].groups()}
+    retained = []  # (object, its own model) left behind by copy / deepcopy / pickle / construct
     first = env.params.get("first")
     for i in range(env.params["steps"]):
         ops = [first] if (i == 0 and first) else env.params.get("then", OPS)
+        before, before_model = m, dict(model)
         m, op = apply_op(env, cat, mod, m, model, "s%d." % i, ops)
+        if m is not before and op in ("copy", "deepcopy", "pickle"):
+            retained.append((before, before_model))
         observe_groups(env, cat, mod, m, model, "after-step")
+        for j, (obj, omodel) in enumerate(retained[-2:]):
+            observe_groups(env, cat, mod, obj, omodel, "source-of-copy")
     env.observe("bytes", bytes(m))
 
 
